@@ -141,7 +141,7 @@ func TestC07(t *testing.T) {
 			for _, kind := range []string{w.FaultReject, w.FaultLost, w.FaultStop} {
 				k, kind := k, kind
 				out := w.StepWithFault(t, f.sc, f.s, w.Event{K: "R_eds", A: edsKey}, func(idx int, c *w.Call) string {
-					if idx == k {
+					if idx == k || (kind == w.FaultStop && idx > k) {
 						return kind
 					}
 					return ""
